@@ -129,6 +129,87 @@ pub fn run(run: &mut Run) {
             }
         }
     }
+    // files with a chunk payload larger than 1 MiB (raw, and compressed-but-incompressible); their prefixes are
+    // loaded in isolated workers so that a reader that spins at end of input is reported, not inherited
+    {
+        use crate::model::*;
+        use crate::worker::*;
+        let pool = Pool::new(16);
+        pool.set_timeout(30_000);
+        let mut bigs: Vec<(String, Vec<u8>, usize, Vec<usize>)> = vec![];
+        for (k, compress) in [(0u64, 0u8), (1, 1)] {
+            let mut s = Sprite::empty(16, 16, Fmt::Rgba);
+            s.layers.push(Layer { flags: 3, kind: LayerKind::Image, level: 0, blend: 0, opacity: 255, name: "big".into(), user_data: None });
+            let (w, h) = (600u16, 450u16 + k as u16);
+            let mut r = Rng(lane_seed(seed, "C13-big", k));
+            let pixels: Vec<u8> = (0..w as usize * h as usize * 4).map(|_| r.next() as u8).collect();
+            s.frames[0].cels.push(Cel { layer: 0, x: 0, y: 0, opacity: 255, content: CelContent::Image { w, h, pixels }, user_data: None });
+            s.frames.push(Frame { duration: 5, cels: vec![] });
+            let mut plan = crate::encode::Plan::plain();
+            plan.compress = compress;
+            plan.zlevel = 1;
+            let e = encode(&s, &plan);
+            let l = e.last_frame_end();
+            let bounds: Vec<usize> = e.chunks.iter().flat_map(|c| [c.start, c.end]).collect();
+            bigs.push((format!("big-chunk-{}", if compress == 0 { "raw" } else { "zlib" }), e.bytes, l, bounds));
+        }
+        let mut bwork: Vec<(usize, usize)> = vec![];
+        for (bi, (_, _, l, bounds)) in bigs.iter().enumerate() {
+            let mut cuts: Vec<usize> = vec![0, 128, 200, l - 1, l - 2, l - 17, l / 2, l / 3, 1 << 20, (1 << 20) + 300, (1 << 20) - 1];
+            for bd in bounds {
+                for d in 0..3usize {
+                    cuts.push(bd.saturating_sub(d));
+                    cuts.push(bd + d);
+                }
+            }
+            let mut r = Rng(lane_seed(seed, "C13-bigcuts", bi as u64));
+            for _ in 0..if run.thorough() { 400 } else { 60 } {
+                cuts.push(r.below(*l as u64) as usize);
+            }
+            cuts.retain(|c| c < l);
+            cuts.sort();
+            cuts.dedup();
+            for c in cuts {
+                bwork.push((bi, c));
+            }
+        }
+        let bres = par_chunks(
+            16,
+            bwork.len() as u64,
+            || (Stats::default(), Vec::<Violation>::new()),
+            |acc, i| {
+                let (bi, c) = bwork[i as usize];
+                let (name, b, _, _) = &bigs[bi];
+                let v = pool.run((i % 16) as usize, &b[..c], 0, i);
+                let fail = match &v {
+                    Verdict::Done { load: LoadV::Err(_), .. } => None,
+                    Verdict::Done { load: LoadV::Ok, .. } => Some(Failure::new("prefix-loaded", format!("a {}-byte prefix of {} ({} bytes) loaded as a sprite", c, name, b.len()))),
+                    Verdict::Done { load: LoadV::Panic { loc, msg }, .. } => Some(Failure::new(format!("prefix-panic:{}", loc), format!("a {}-byte prefix of {} panicked at {}: {}", c, name, loc, msg))),
+                    Verdict::Timeout { cpu_ms, .. } if *cpu_ms >= 20_000 => Some(Failure::new("prefix-no-return", format!("loading a {}-byte prefix of {} did not return after {} ms of CPU time", c, name, cpu_ms))),
+                    Verdict::Timeout { .. } => None,
+                    other => Some(Failure::new("prefix-died", format!("loading a {}-byte prefix of {}: {:?}", c, name, other))),
+                };
+                match fail {
+                    None => acc.0.record(&Outcome::new(c > 128, hash_bytes(&b[..64]) ^ crate::encode::mix(c as u64, 0xB16)).label("big-chunk-file")),
+                    Some(f) => {
+                        acc.0.evaluations += 1;
+                        if acc.1.len() < 2 && !acc.1.iter().any(|x| x.failure.signature == f.signature) {
+                            acc.1.push(Violation { case: json!({"big_file": name, "cut": c, "note": "regenerate with the same seed; the prefix is too large to embed"}), failure: f });
+                        }
+                    }
+                }
+            },
+        );
+        for (st, vs) in bres {
+            run.stats.merge(st);
+            for v in vs {
+                if !run.is_known(&v.failure.signature) && !run.violations.iter().any(|x| x.failure.signature == v.failure.signature) {
+                    run.violations.push(v);
+                }
+            }
+        }
+        run.extra.insert("big_chunk_prefixes".into(), json!(bwork.len()));
+    }
     // the path-based entry point on a sample of cuts of every file (chunk boundaries +-1 and 24 seeded cuts)
     let mut fwork: Vec<(u32, u32)> = vec![];
     for (fi, (_, b, l, bounds)) in files.iter().enumerate() {
